@@ -76,3 +76,48 @@ def run(F, R):
         R.check(len(ins) == 1 and key_ok, "R27.3", "per-event-map:single-response-key", b.where(), "one insert keyed by field_name",
                 "the per-event object is built with %d inserts / a key not derived from the field's response key" % len(ins))
     R.floor("R27.3", "per-event response builders", n, 4)
+
+    R.rule("R27.4", "operation-kind dispatch of execute_stream (finite domain, K4): over the three OperationType values, the single-response path "
+                    "(execute_once / Extensions::execute) is reachable for Query and Mutation, and the subscription path (collect streams) only for Subscription")
+    from common import variant_reachable
+    OPS = ["Query", "Mutation", "Subscription"]
+    for key, g in gens.items():
+        once = [c for c in g.calls_to(r"schema::\{impl#\d+\}::execute_once$|extensions::\{impl#\d+\}::execute$")]
+        # closures that wrap execute_once (static: `let f = |data| async move { schema.execute_once(..) }`)
+        for (bb, cdef, st) in g.closures_created():
+            cb = F.get(cdef)
+            if cb and any(c.callee and re.search(r"schema::\{impl#\d+\}::execute_once$", c.callee) for x in F.with_nested(cb) for c in x.calls()):
+                class _P:
+                    pass
+                p_ = _P(); p_.bb = bb
+                once.append(p_)
+        subs = [c for c in g.calls_to(r"subscription::collect_subscription_streams$|dynamic::subscription::\{impl#\d+\}::collect_streams$")]
+        R.check(bool(once) and bool(subs), "R27.4", key + ":dispatch-anchors", g.where(), "%d single-response sites, %d subscription sites" % (len(once), len(subs)),
+                "execute_stream's single-response / subscription sites not found")
+        res = variant_reachable(g, r"OperationType$", OPS, [c.bb for c in once] + [c.bb for c in subs])
+        single = set()
+        for c in once:
+            single |= res[c.bb]
+        R.check({"Query", "Mutation"} <= single and "Subscription" not in single, "R27.4", key + ":query-and-mutation-take-the-single-response-path", g.where(),
+                "single-response path reachable for %s" % sorted(single),
+                "the single-response path is reachable for %s (expected exactly Query and Mutation): a streamed %s is routed to the subscription root and "
+                "answered with one error response per root field instead of being executed once" % (sorted(single), sorted({"Query", "Mutation"} - single) or "operation"))
+        for c in subs:
+            R.check(res[c.bb] == {"Subscription"}, "R27.4", key + ":subscription-path-only-for-subscriptions", g.where(), "subscription path reachable for %s" % sorted(res[c.bb]),
+                    "the subscription path is reachable for %s" % sorted(res[c.bb]))
+
+    R.rule("R27.5", "events of one root field are resolved one at a time: the Subscription expansion chains the user's stream with the per-event resolution "
+                    "through StreamExt::then (sequential); no buffered / buffer_unordered / for_each_concurrent / flatten_unordered combinator appears in the expansion "
+                    "(concurrent events of one field would drain each other's errors from the shared list)")
+    n = 0
+    for b in F.bodies.values():
+        if macro_of(b) != "Subscription":
+            continue
+        conc = [c for c in b.calls() if c.callee and re.search(r"StreamExt::(buffered|buffer_unordered|for_each_concurrent|flatten_unordered|flat_map_unordered)$|stream::(select_all|futures_unordered)", c.declared or c.callee)]
+        then = [c for c in b.calls() if (c.declared or "").endswith("StreamExt::then")]
+        if then or conc:
+            n += 1
+            key = re.sub(r"\{closure#\d+\}", "{c}", re.sub(r"\{impl#\d+\}", "{impl}", b.defp))
+            R.check(bool(then) and not conc, "R27.5", "per-event-resolution-sequential:" + key, b.where(), "StreamExt::then",
+                    "the per-event resolution is combined with %s: events of the same field resolve concurrently" % sorted({(c.declared or c.callee).split("::")[-1] for c in conc}))
+    R.floor("R27.5", "Subscription expansions chaining a stream", n, 4)
